@@ -105,6 +105,9 @@ let parse_express (f : string list) : ev option =
   match f with
   | "express" :: nm :: cbp :: dig :: life :: _ -> Some (EExpress (name_of_string nm, cbp = "1", opt_n dig, opt_n life))
   | "expressfail" :: nm :: cbp :: dig :: life :: _ -> Some (EExpressFail (name_of_string nm, cbp = "1", opt_n dig, opt_n life))
+  | "attach" :: nm :: h :: _ -> Some (EAttach (name_of_string nm, n_of_int (int_of_string h)))    (* made by a handler *)
+  | "detach" :: nm :: _ -> Some (EDetach (name_of_string nm))
+  | "reply" :: i :: _ -> Some (EReply (nat_of_int (int_of_string i)))
   | ["data"; nm; dd] -> Some (EData (name_of_string nm, n_of_int (int_of_string dd)))
   | ["nack"; nm; r] -> let (nm', dig) = split_digest (name_of_string nm) in Some (ENack (nm', dig, n_of_int (int_of_string r)))
   | _ -> None
@@ -285,7 +288,7 @@ let () =
               [with_nops acc]
           | ["attach"; nm; h] -> [step1 (st, []) (EAttach (name_of_string nm, n_of_int (int_of_string h)))]
           | ["detach"; nm] -> [step1 (st, []) (EDetach (name_of_string nm))]
-          | ["interest"; nm; life; tok] -> [step1 (st, []) (EInterest (name_of_string nm, opt_n life, opt_tok tok))]
+          | ["interest"; nm; life; tok] -> [with_nops (step1 (st, []) (EInterest (name_of_string nm, opt_n life, opt_tok tok)))]
           | ["reply"; i] ->
               let (st', ob) = step1 (st, []) (EReply (nat_of_int (int_of_string i))) in
               (* through a face that is not running the reply closure returns ErrFaceDown after the deadline test *)
@@ -359,10 +362,19 @@ let () =
           (* the Interest transmission belonging to the Express that gets the next pid *)
           let want = Printf.sprintf "out int %d" (int_of_nat (sp_npid !sp)) in
           if List.mem want !outs then begin outs := List.filter (fun x -> x <> want) !outs; parse [want] end else [] in
+        (* the return value a nested call made by a handler reported: "... ret=ok|err|deadline|noreply" *)
+        let ret_of txt = List.concat_map (fun w ->
+            if String.length w > 4 && String.sub w 0 4 = "ret=" then parse ["ret " ^ String.sub w 4 (String.length w - 4)] else [])
+            (String.split_on_char ' ' txt) in
         let feed_nop (txt, _) =
           match parse_express (String.split_on_char ' ' txt) with
           | Some (EExpress (nm, cbp, dig, life)) -> feed idx ("nested " ^ txt) (SExpress (nm, cbp, dig, life)) (take_out_int ())
           | Some (EExpressFail (nm, cbp, dig, life)) -> feed idx ("nested " ^ txt) (SExpressFail (nm, cbp, dig, life)) [ORet (n_of_int 1)]
+          | Some (EAttach (nm, h)) -> feed idx ("in-handler " ^ txt) (SAttach (nm, h)) (ret_of txt)
+          | Some (EDetach nm) -> feed idx ("in-handler " ^ txt) (SDetach nm) (ret_of txt)
+          | Some (EReply i) ->
+              let sent = "out data " ^ string_of_int (int_of_nat i) in
+              feed idx ("in-handler " ^ txt) (SReply i) (ret_of txt @ (if List.mem sent !outs && ret_of txt = [ORet (n_of_int 0)] then parse [sent] else []))
           | Some (EData (nm, dd)) -> feed idx ("during-send " ^ txt) (SData (nm, dd)) (parse o.cbs)
           | Some (ENack (nm, dig, r)) -> feed idx ("during-send " ^ txt) (SNack (nm, dig, r)) (parse o.cbs)
           | _ -> () in
@@ -436,7 +448,11 @@ let () =
              if target > nowi then feed idx o.text (SAdvance (n_of_int (target - nowi))) []
          | ["attach"; nm; h] -> feed idx o.text (SAttach (name_of_string nm, n_of_int (int_of_string h))) (parse o.outs)
          | ["detach"; nm] -> feed idx o.text (SDetach (name_of_string nm)) (parse o.outs)
-         | ["interest"; nm; life; tok] -> feed idx o.text (SInterest (name_of_string nm, opt_n life, opt_tok tok)) (parse o.outs)
+         | ["interest"; nm; life; tok] ->
+             (* what the handler did synchronously (attach / detach / express / reply) follows as nested operations *)
+             let mine = List.filter (fun l -> String.length l >= 7 && String.sub l 0 7 = "handler") o.outs in
+             feed idx o.text (SInterest (name_of_string nm, opt_n life, opt_tok tok)) (parse mine);
+             List.iter feed_nop o.nops
          | ["reply"; i] -> feed idx o.text (SReply (nat_of_int (int_of_string i))) (parse o.outs)
          | _ -> ())
       end) ops;
